@@ -31,11 +31,19 @@ def ref_len(M, out, n): ref_compact(M, out, bv(n, 32))
 def vlen(M, v): return M.concrete(v.len, 'ref.len') if isinstance(v, VecV) else len(v.elems)
 
 
+def ref_abs(M, out, v):
+    """vector of symbolic length with opaque elements (length-abstraction harnesses): exact compact length, then one block for the elements"""
+    from mirsym.codec_models import AbsElems
+    if not isinstance(v, ArrVec): return False
+    ref_compact(M, out, z3.Extract(31, 0, v.len)); out.append(AbsElems(v.data, v.len)); return True
+
+
 def ref_string(M, out, s):
     ref_len(M, out, len(s.elems)); out += list(s.elems)
 
 
 def ref_strings(M, out, v):
+    if ref_abs(M, out, v): return
     n = vlen(M, v); ref_len(M, out, n)
     for s in v.elems[:n]: ref_string(M, out, s)
 
@@ -58,6 +66,7 @@ def ref_field(M, out, f):
 
 
 def ref_fields(M, out, v):
+    if ref_abs(M, out, v): return
     n = vlen(M, v); ref_len(M, out, n)
     for f in v.elems[:n]: ref_field(M, out, f)
 
@@ -72,14 +81,18 @@ def ref_typedef(M, out, d):
     out.append(bv(k, 8)); p = d.payloads[k]
     if k == 0: ref_fields(M, out, p[0][0])
     elif k == 1:
-        vs = p[0][0]; n = vlen(M, vs); ref_len(M, out, n)
+        vs = p[0][0]
+        if ref_abs(M, out, vs): return
+        n = vlen(M, vs); ref_len(M, out, n)
         for v in vs.elems[:n]:
             ref_string(M, out, v[0]); ref_fields(M, out, v[1]); out.append(v[2]); ref_strings(M, out, v[3])
     elif k == 2: ref_id(M, out, p[0][0])
     elif k == 3:
         ln = p[0][0]; out += [z3.Extract(7, 0, ln), z3.Extract(15, 8, ln), z3.Extract(23, 16, ln), z3.Extract(31, 24, ln)]; ref_id(M, out, p[0][1])
     elif k == 4:
-        fs = p[0][0]; n = vlen(M, fs); ref_len(M, out, n)
+        fs = p[0][0]
+        if ref_abs(M, out, fs): return
+        n = vlen(M, fs); ref_len(M, out, n)
         for s in fs.elems[:n]: ref_id(M, out, s)
     elif k == 5: out.append(bv(kind_of(M, p[0], 15, 'ref.prim'), 8))
     elif k == 6: ref_id(M, out, p[0][0])
@@ -88,8 +101,10 @@ def ref_typedef(M, out, d):
 
 def ref_type(M, out, t):
     ref_strings(M, out, t[0][0])
-    ps = t[1]; n = vlen(M, ps); ref_len(M, out, n)
-    for p in ps.elems[:n]:
+    ps = t[1]
+    n = 0 if ref_abs(M, out, ps) else vlen(M, ps)
+    if not isinstance(ps, ArrVec): ref_len(M, out, n)
+    for p in (ps.elems[:n] if n else []):
         ref_string(M, out, p[0])
         if is_some(M, p[1]): out.append(bv(1, 8)); ref_id(M, out, p[1].payloads[1][0])
         else: out.append(bv(0, 8))
@@ -98,7 +113,9 @@ def ref_type(M, out, t):
 
 def ref_registry(M, reg):
     out = []
-    ts = reg[0]; n = vlen(M, ts); ref_len(M, out, n)
+    ts = reg[0]
+    if ref_abs(M, out, ts): return [b if not z3.is_expr(b) else z3.simplify(b) for b in out]
+    n = vlen(M, ts); ref_len(M, out, n)
     for pt in ts.elems[:n]:
         ref_compact(M, out, pt[0]); ref_type(M, out, pt[1])
     return [z3.simplify(b) for b in out]
@@ -182,6 +199,19 @@ def struct_diff(a, b, g, out, where=''):
     if isinstance(a, ValSlice) and isinstance(b, ValSlice):
         if len(a.elems) != len(b.elems): out.append((where + ' len', g)); return
         for i, (x, y) in enumerate(zip(a.elems, b.elems)): struct_diff(x, y, g, out, where)
+        return
+    if isinstance(a, ArrVec):       # abstract vector: same length, same elements
+        if isinstance(b, ArrVec):
+            out.append((where + ' len', z3.And(g, a.len != b.len)))
+            if not z3.eq(a.data, b.data):
+                j = z3.BitVec('j_%s' % where, 64); out.append((where + ' elements', z3.And(g, z3.ULT(j, a.len), z3.Select(a.data, j) != z3.Select(b.data, j))))
+        elif isinstance(b, VecV):
+            bl = b.len if not isinstance(b.len, int) else bv(b.len, 64)
+            out.append((where + ' len', z3.And(g, a.len != bl)))
+            for j, y in enumerate(b.elems):
+                if not z3.is_expr(y): out.append((where + ' elements', g)); break
+                out.append(('%s[%d]' % (where, j), z3.And(g, z3.ULT(bv(j, 64), bl), z3.Select(a.data, bv(j, 64)) != y)))
+        else: out.append((where, g))
         return
     if isinstance(a, VecV) and isinstance(b, VecV):
         al = a.len if not isinstance(a.len, int) else bv(a.len, 64); bl = b.len if not isinstance(b.len, int) else bv(b.len, 64)
